@@ -1,6 +1,6 @@
 SPECIFICATION Spec
 CONSTANTS
-  Groups = {"wallet"}
+  Groups = {"syncagg"}
   Pinned = TRUE
   InPlace = FALSE
   MaxPar = 2
